@@ -95,6 +95,8 @@ struct Delivery {
   std::vector<size_t> chunks;
   size_t shortAt = SIZE_MAX;
   uint64_t gFailAt = 0, gFailFrom = 0;
+  unsigned bernDen = 0;
+  uint64_t bernSeed = 0;
   bool checkReuse = true;
 };
 
@@ -131,11 +133,17 @@ OneResult runOne(RK kind, const Delivery& d, const std::string& wire, Transcript
       alloc.faults.gFailAt.insert(f0 + d.gFailAt);
     if (d.gFailFrom)
       alloc.faults.gFailFrom = f0 + d.gFailFrom;
+    if (d.bernDen) {
+      alloc.faults.bernoulliNum = 1;
+      alloc.faults.bernoulliDen = d.bernDen;
+      alloc.faults.rng = Rng(d.bernSeed);
+    }
     size_t liveBefore = alloc.liveBytes;
     (void)liveBefore;
     DeserializationError err = deserializeVia(kind, o, *doc, wire, r.rs, &scratch);
     alloc.faults.gFailAt.clear();
     alloc.faults.gFailFrom = 0;
+    alloc.faults.bernoulliDen = 0;
     r.code = codeName(err);
     r.peak = alloc.peakLive;
     r.liveAtReturn = alloc.liveBytes;
@@ -297,6 +305,10 @@ Delivery deliveryFrom(const Op& op) {
     d.gFailAt = op.unum("fa");
   if (op.has("ff"))
     d.gFailFrom = op.unum("ff");
+  if (op.has("bern")) {
+    d.bernDen = unsigned(op.unum("bern"));
+    d.bernSeed = op.unum("bseed");
+  }
   return d;
 }
 
@@ -407,6 +419,11 @@ void deliverToKinds(const Op& op, const Delivery& d, const std::string& wire, Ct
       dk.shortAt = SIZE_MAX;
     OneResult r = runOne(k, dk, wire, cx.t);
     count("xfer.deliveries");
+    if (r.faultsFired) {
+      count("fault.alloc_fired", r.faultsFired);
+      count(r.code == "NoMemory" ? "c05.failed_cleanly" : "c05.absorbed_or_other");
+      continue;  // results under random allocation failures are judged for safety only (runOne)
+    }
     count((std::string("kind.") + rkName(k)).c_str());
     count((std::string("code.") + r.code).c_str());
     if (r.rs.shortReadFired) {
@@ -1115,7 +1132,7 @@ Plan generate(const std::string& mode, uint64_t seed, uint64_t run) {
     if (!mp && hasNul(v))
       op.set("nounicode_skip", 1);
     p.ops.push_back(op);
-  } else if (mode == "any") {
+  } else if (mode == "any" || mode == "anyfault") {
     // any bytes: valid, truncated, mutated, spliced, random
     Val v = genValue(r, go);
     std::string b = encodeValid(r, v, mp, r.chance(1, 2));
@@ -1155,6 +1172,10 @@ Plan generate(const std::string& mode, uint64_t seed, uint64_t run) {
     op.set("kinds", "all").set("chunks", chunkSpec(r));
     if (r.chance(1, 6))
       op.setu("short", r.below(b.size() + 1));
+    if (mode == "anyfault") {
+      static const unsigned dens[] = {2, 3, 5, 10, 25};
+      op.set("bern", dens[r.below(5)]).setu("bseed", r.next() & 0xFFFFFF);
+    }
     op.set("expect", "any");
     p.ops.push_back(op);
   } else if (mode == "mpprefix" || mode == "jsonprefix") {
